@@ -213,6 +213,8 @@ def do_call(drv, c):
         return getattr(drv, api)()
     if api == "set_plc_time":
         return drv.set_plc_time(c["us"])
+    if api == "get_datalog_queue":
+        return drv.get_datalog_queue(c["num"], c["queue"])
     if api == "get_module_info":
         return drv.get_module_info(c["slot"])
     if api == "get_tag_list":
